@@ -204,7 +204,38 @@ class Kit:
             # an (empty) container-like service: alive although it is falsy
             Service.__len__ = lambda self: 0
         Service.__qualname__ = Service.__name__ = "Service_%s" % desc["id"]
+        shape = desc.get("shape")
+        if shape == "cached":
+            # a singleton: constructing it again gives the instance that exists already
+            def __new__(cls, *args, **kwargs):
+                if cls.__dict__.get("_instance") is None:
+                    cls._instance = object.__new__(cls)
+                return cls._instance
+
+            Service.__new__ = __new__
+        elif shape in ("redecorated", "subclass"):
+            # derived from a class that is a service already - of another flavour and
+            # decorated again, or of the same flavour and not decorated again
+            names = sorted(FLAVOURS)
+            other = names[(names.index(flavour) + 1) % len(names)]
+
+            class Base:
+                def run(self):
+                    raise AssertionError("the run method of the base class was started")
+
+            Base = service(flavour=FLAVOURS[other if shape == "redecorated" else flavour])(Base)
+            Service = type(Service.__name__, (Base,), {"run": Service.run})
+            if shape == "subclass":
+                return Service
         return service(flavour=FLAVOURS[flavour])(Service)
+
+    def service_instance(self, desc):
+        """Call the service class of ``desc`` (made on first use): a (new) instance"""
+        classes = self.env.shared.setdefault("service-classes", {})
+        if desc["id"] not in classes:
+            classes[desc["id"]] = self.service_class(desc)
+        self.env.log("service-create", id=desc["id"])
+        return classes[desc["id"]]()
 
     # -- step interpreters ------------------------------------------------------------
     def _started(self, desc, args, kwargs):
@@ -274,8 +305,7 @@ class Kit:
             self.env.log("service-drop")
             return True
         if op == "service":
-            self.env.log("service-create", id=step[1]["id"])
-            self.env.shared.setdefault("keep", []).append(self.service_class(step[1])())
+            self.env.shared.setdefault("keep", []).append(self.service_instance(step[1]))
             return True
         if op == "call":
             self.env.shared[step[1]](self.env)
